@@ -1,0 +1,13 @@
+//go:build verif
+
+package bech32
+
+// Ghost lemma function for the deductive verifier in /verif (build tag verif, never called).
+// lemmaChecksumVerifies: the data symbols followed by the six checksum symbols bech32Checksum computes for
+// them pass bech32VerifyChecksum, for every human-readable part and all 5-bit data symbols (the code-word
+// property, by linearity of the 30-bit shift register: bit-vector lemma b32_selfcheck_b).
+func lemmaChecksumVerifies(hrp string, data []byte) bool {
+	c := bech32Checksum(hrp, data)
+	q := append(append([]byte{}, data...), c...)
+	return bech32VerifyChecksum(hrp, q)
+}
